@@ -1144,6 +1144,13 @@ fn hang_binop_expression(
                 && binop.is_right_associative() == top_binop.is_right_associative();
             let is_right_associative = binop.is_right_associative();
 
+            // Everything below is an operand of a binary operator, so e.g. a type assertion
+            // `(x :: number) < 0` must keep its parentheses
+            let expression_context = match expression_context {
+                ExpressionContext::Standard => ExpressionContext::UnaryOrBinary,
+                other => other,
+            };
+
             let test_shape = if same_op_level {
                 shape
             } else {
